@@ -12,20 +12,20 @@ theorem length_printItemEnd (m last : Bool) : 1 ≤ (printItemEnd m last).length
 /-- SEQUENCE / SET from the component loop -/
 theorem tyRT_components (isSet : Bool) (fs : UFields) (e : Option Nat) (hfs : FieldsRT fs) :
     TyRT (if isSet then .set fs e else .sequence fs e) := by
-  intro fuel rest hw hnw hk _ hf
+  intro fuel rest hw hnw _ hf
   obtain ⟨f, rfl⟩ : ∃ f, fuel = f + 1 := ⟨fuel - 1, by omega⟩
   cases isSet with
   | false =>
-    simp only [Bool.false_eq_true, if_false, tyWf, Bool.and_eq_true, tyNoWiden, tyNoKwRef, tyTail,
-      List.length_cons] at hw hnw hk hf
-    have := hfs e 0 f rest hw.1 hnw hk (by omega)
+    simp only [Bool.false_eq_true, if_false, tyWf, Bool.and_eq_true, tyNoWiden, tyTail,
+      List.length_cons] at hw hnw hf
+    have := hfs e 0 f rest hw.1 hnw (by omega)
     simp only [Bool.false_eq_true, if_false, tyHead, tyTail]
     rw [parseRoleGiven]
     simp [kwClass_SEQUENCE, maybeReadSize, this, extIn_all e _ hw.2, canonTy]
   | true =>
-    simp only [if_true, tyWf, Bool.and_eq_true, tyNoWiden, tyNoKwRef, tyTail,
-      List.length_cons] at hw hnw hk hf
-    have := hfs e 0 f rest hw.1 hnw hk (by omega)
+    simp only [if_true, tyWf, Bool.and_eq_true, tyNoWiden, tyTail,
+      List.length_cons] at hw hnw hf
+    have := hfs e 0 f rest hw.1 hnw (by omega)
     simp only [if_true, tyHead, tyTail]
     rw [parseRoleGiven]
     simp [kwClass_SET, maybeReadSize, this, extIn_all e _ hw.2, canonTy]
@@ -33,23 +33,23 @@ theorem tyRT_components (isSet : Bool) (fs : UFields) (e : Option Nat) (hfs : Fi
 /-- SEQUENCE OF / SET OF from the element type -/
 theorem tyRT_listOf (isSet : Bool) (t : UTy) (s : Size USz) (ht : TyRT t) :
     TyRT (if isSet then .setOf t s else .sequenceOf t s) := by
-  intro fuel rest hw hnw hk hr hf
+  intro fuel rest hw hnw hr hf
   obtain ⟨f, rfl⟩ : ∃ f, fuel = f + 1 := ⟨fuel - 1, by omega⟩
   cases isSet with
   | false =>
-    simp only [Bool.false_eq_true, if_false, tyWf, Bool.and_eq_true, tyNoWiden, tyNoKwRef, tyTail,
-      List.length_append, List.length_cons] at hw hnw hk hf
-    have hin := ht f rest hw.1 hnw hk.1 hr (by omega)
-    have hs := maybeReadSize_print s hw.2 hk.2 (.text "OF" :: .text (tyHead t) :: (tyTail t ++ rest))
+    simp only [Bool.false_eq_true, if_false, tyWf, Bool.and_eq_true, tyNoWiden, tyTail,
+      List.length_append, List.length_cons] at hw hnw hf
+    have hin := ht f rest hw.1 hnw hr (by omega)
+    have hs := maybeReadSize_print s hw.2 (.text "OF" :: .text (tyHead t) :: (tyTail t ++ rest))
       (RestOk.text _ _ eqIC_OF_SIZE)
     simp only [Bool.false_eq_true, if_false, tyHead, tyTail, List.append_assoc, List.cons_append]
     rw [parseRoleGiven]
     simp [kwClass_SEQUENCE, hs, eqIC_OF, hin, canonTy]
   | true =>
-    simp only [if_true, tyWf, Bool.and_eq_true, tyNoWiden, tyNoKwRef, tyTail,
-      List.length_append, List.length_cons] at hw hnw hk hf
-    have hin := ht f rest hw.1 hnw hk.1 hr (by omega)
-    have hs := maybeReadSize_print s hw.2 hk.2 (.text "OF" :: .text (tyHead t) :: (tyTail t ++ rest))
+    simp only [if_true, tyWf, Bool.and_eq_true, tyNoWiden, tyTail,
+      List.length_append, List.length_cons] at hw hnw hf
+    have hin := ht f rest hw.1 hnw hr (by omega)
+    have hs := maybeReadSize_print s hw.2 (.text "OF" :: .text (tyHead t) :: (tyTail t ++ rest))
       (RestOk.text _ _ eqIC_OF_SIZE)
     simp only [if_true, tyHead, tyTail, List.append_assoc, List.cons_append]
     rw [parseRoleGiven]
@@ -58,17 +58,17 @@ theorem tyRT_listOf (isSet : Bool) (t : UTy) (s : Size USz) (ht : TyRT t) :
 /-- CHOICE from the alternative loop -/
 theorem tyRT_choice (vs : UVariants) (e : Option Nat) (hvs : VariantsRT vs) :
     TyRT (.choice vs e) := by
-  intro fuel rest hw hnw hk _ hf
+  intro fuel rest hw hnw _ hf
   obtain ⟨f, rfl⟩ : ∃ f, fuel = f + 1 := ⟨fuel - 1, by omega⟩
-  simp only [tyWf, Bool.and_eq_true, decide_eq_true_eq, tyNoWiden, tyNoKwRef, tyTail,
-    List.length_cons] at hw hnw hk hf
-  have := hvs e 0 false f rest hw.1.1 hw.1.2 hnw hk (by simp) (by omega)
+  simp only [tyWf, Bool.and_eq_true, decide_eq_true_eq, tyNoWiden, tyTail,
+    List.length_cons] at hw hnw hf
+  have := hvs e 0 false f rest hw.1.1 hw.1.2 hnw (by simp) (by omega)
   simp only [tyHead, tyTail]
   rw [parseRoleGiven]
   simp [kwClass_CHOICE, this, extIn_all e _ hw.2, canonTy]
 
 theorem fieldsRT_nil : FieldsRT .nil := by
-  intro ext i fuel rest _ _ _ hf
+  intro ext i fuel rest _ _ hf
   obtain ⟨f, rfl⟩ : ∃ f, fuel = f + 1 := ⟨fuel - 1, by simp [printFieldsLoop] at hf; omega⟩
   simp [printFieldsLoop, componentLoop_brace, canonFields, Fields.length, extIn_zero]
 
@@ -76,12 +76,10 @@ theorem fieldsRT_nil : FieldsRT .nil := by
 theorem fieldsRT_cons (name : String) (tag : Option Tag) (ty : UTy) (d : Option UConst)
     (tl : UFields) (hty : TyRT (fieldCore ty).1) (htl : FieldsRT tl) :
     FieldsRT (.cons name tag ty d tl) := by
-  intro ext i fuel rest hw hnw hk hf
+  intro ext i fuel rest hw hnw hf
   obtain ⟨htag, hcw, hod, hd, htlw⟩ := fieldsWf_cons name tag ty d tl hw
   simp only [fieldsNoWiden, Bool.and_eq_true] at hnw
-  simp only [fieldsNoKwRef, Bool.and_eq_true] at hk
   rw [← tyNoWiden_core] at hnw
-  rw [← tyNoKwRef_core] at hk
   rw [printFieldsLoop_cons name tag ty d tl ext i hod] at hf ⊢
   obtain ⟨f, rfl⟩ : ∃ f, fuel = f + 1 := ⟨fuel - 1, by simp at hf; omega⟩
   simp only [List.length_cons, List.length_append] at hf
@@ -93,7 +91,7 @@ theorem fieldsRT_cons (name : String) (tag : Option Tag) (ty : UTy) (d : Option 
   have step := fun (c : Char) (hc : c = ',' ∨ c = '}') (more : List Token) =>
     componentLoop_field f i name tag htag (tyHead (fieldCore ty).1) (tyTail (fieldCore ty).1)
       (canonTy (fieldCore ty).1) (fieldCore ty).2 d hod hd c hc more
-      (hty f _ hcw hnw.1 hk.1 (presenceToks_restOk _ _ c more hc) (by omega))
+      (hty f _ hcw hnw.1 (presenceToks_restOk _ _ c more hc) (by omega))
   cases tl with
   | nil =>
     by_cases hm : ext = some i
@@ -122,7 +120,7 @@ theorem fieldsRT_cons (name : String) (tag : Option Tag) (ty : UTy) (d : Option 
       subst hm
       obtain ⟨f', rfl⟩ : ∃ f', f = f' + 1 := ⟨f - 1, by
         simp [fieldsEnd, printItemEnd] at hf; omega⟩
-      have hrec := htl (some i) (i + 1) f' rest htlw hnw.2 hk.2 (by
+      have hrec := htl (some i) (i + 1) f' rest htlw hnw.2 (by
         simp [fieldsEnd, printItemEnd] at hf; omega)
       have := step ',' (Or.inl rfl)
         (.sep '.' :: .sep '.' :: .sep '.' :: .sep ',' ::
@@ -134,7 +132,7 @@ theorem fieldsRT_cons (name : String) (tag : Option Tag) (ty : UTy) (d : Option 
         extIn_past i (i + 1)]
     · -- `,` then the rest of the loop
       have hb : (ext == some i) = false := by simpa using hm
-      have hrec := htl ext (i + 1) f rest htlw hnw.2 hk.2 (by
+      have hrec := htl ext (i + 1) f rest htlw hnw.2 (by
         simp [fieldsEnd, printItemEnd, hb] at hf; omega)
       have := step ',' (Or.inl rfl) (printFieldsLoop (.cons n2 tag2 ty2 d2 tl2) ext (i + 1) ++ rest)
       simp only [fieldsEnd, printItemEnd, hb, Bool.false_eq_true, if_false, if_true,
@@ -150,17 +148,16 @@ theorem variantsRT_nil : VariantsRT .nil := by
 /-- one more alternative in front: the step of the induction over the alternative list -/
 theorem variantsRT_cons (name : String) (tag : Option Tag) (ty : UTy) (tl : UVariants)
     (hty : TyRT ty) (htl : VariantsRT tl) : VariantsRT (.cons name tag ty tl) := by
-  intro ext i seen fuel rest _ hw hnw hk hseen hf
+  intro ext i seen fuel rest _ hw hnw hseen hf
   simp only [variantsWf, Bool.and_eq_true] at hw
   simp only [variantsNoWiden, Bool.and_eq_true] at hnw
-  simp only [variantsNoKwRef, Bool.and_eq_true] at hk
   obtain ⟨⟨htag, htyw⟩, htlw⟩ := hw
   rw [printVariantsLoop_cons] at hf ⊢
   obtain ⟨f, rfl⟩ : ∃ f, fuel = f + 1 := ⟨fuel - 1, by simp at hf; omega⟩
   simp only [List.length_cons, List.length_append] at hf
   have step := fun (c : Char) (hc : c = ',' ∨ c = '}') (more : List Token) =>
     choiceLoop_alt f i seen name tag htag (tyHead ty) (tyTail ty) (canonTy ty) c hc more
-      (hty f _ htyw hnw.1 hk.1
+      (hty f _ htyw hnw.1
         (by cases hc with
           | inl h => subst h; exact RestOk.sep _ _ (by decide) (by decide)
           | inr h => subst h; exact RestOk.sep _ _ (by decide) (by decide))
@@ -198,7 +195,7 @@ theorem variantsRT_cons (name : String) (tag : Option Tag) (ty : UTy) (tl : UVar
       subst hs
       obtain ⟨f', rfl⟩ : ∃ f', f = f' + 1 := ⟨f - 1, by
         simp [variantsEnd, printItemEnd] at hf; omega⟩
-      have hrec := htl (some i) (i + 1) true f' rest (by simp [Variants.length]) htlw hnw.2 hk.2
+      have hrec := htl (some i) (i + 1) true f' rest (by simp [Variants.length]) htlw hnw.2
         (fun _ => extIn_past i (i + 1) _ (by omega))
         (by simp [variantsEnd, printItemEnd] at hf; omega)
       have := step ',' (Or.inl rfl)
@@ -210,7 +207,7 @@ theorem variantsRT_cons (name : String) (tag : Option Tag) (ty : UTy) (tl : UVar
       simp [choiceLoop_marker_comma, hrec, canonVariants, Variants.length, extIn_here]
     · have hb : (ext == some i) = false := by simpa using hm
       have he := extIn_step ext i (Variants.length (.cons n2 tag2 ty2 tl2)) hm
-      have hrec := htl ext (i + 1) seen f rest (by simp [Variants.length]) htlw hnw.2 hk.2
+      have hrec := htl ext (i + 1) seen f rest (by simp [Variants.length]) htlw hnw.2
         (fun hs => by rw [← he]; exact hseen hs)
         (by simp [variantsEnd, printItemEnd, hb] at hf; omega)
       have := step ',' (Or.inl rfl) (printVariantsLoop (.cons n2 tag2 ty2 tl2) ext (i + 1) ++ rest)
@@ -266,9 +263,9 @@ end
     `(`, `{` or `SIZE`) is read back as its canonical form, and exactly `rest` is left.
     Nesting is unbounded. -/
 theorem parseRoleGiven_print (t : UTy) (fuel : Nat) (rest : List Token) (hw : tyWf t = true)
-    (hnw : tyNoWiden t = true) (hk : tyNoKwRef t = true) (hr : RestOk rest)
+    (hnw : tyNoWiden t = true) (hr : RestOk rest)
     (hf : (tyTail t).length < fuel) :
     parseRoleGiven fuel (tyHead t) (tyTail t ++ rest) = .ok (canonTy t, rest) :=
-  (tyRT_all t).1 fuel rest hw hnw hk hr hf
+  (tyRT_all t).1 fuel rest hw hnw hr hf
 
 end Asn1Verif.Front.Syn
